@@ -876,11 +876,17 @@ class Expression(Expr):
                         if vt is list:
                             for x in v:
                                 if x is not None and x is not False:
-                                    hash_ = hash((hash_, k, x.lower() if type(x) is str else x))
+                                    xt = type(x)
+                                    hash_ = hash(
+                                        (hash_, k, x.lower() if xt is str else repr(x) if xt is int else x)
+                                    )
                                 else:
                                     hash_ = hash((hash_, k))
                         elif v is not None and v is not False:
-                            hash_ = hash((hash_, k, v.lower() if vt is str else v))
+                            # ints are hashed through their text: hash(-1) == hash(-2) in CPython
+                            hash_ = hash(
+                                (hash_, k, v.lower() if vt is str else repr(v) if vt is int else v)
+                            )
 
                 node._hash = hash_
         assert self._hash
